@@ -71,12 +71,28 @@ def drv_utility(tier, rng):
         known = alts(tab, m)
         nchose = rng.randint(1, n)
         chose = [a['id'] for a in rng.sample(known, nchose)]
+        crits = [crit(j, types[j]) for j in range(m)]
+        for c in crits:     # a criterion without `type` is a gain criterion
+            if c['type'] == 'gain' and method != 'choquetIntegral' and rng.random() < 0.2:
+                del c['type']
         req = {'preferenceFunction': method, 'knownAlternatives': known, 'choseToMake': chose,
-               'criteria': [crit(j, types[j]) for j in range(m)], 'methodParameters': {'weights': w}, 'biases': []}
+               'criteria': crits, 'methodParameters': {'weights': w}, 'biases': []}
         g = []
         for r in perm_twins(rng, req, 'C04', 2):
             g.append(base_case(r, exactprop='C03', group={'id': 'x', 'rel': 'perm', 'p': 'C04'}))
         groups.append(g)
+    # Choquet near-ties around its 1e-5 tolerance, at magnitude 1 and 250: unit 2^20 resolves gaps of 8 (7.6e-6: tied)
+    # and 16 or 32 (1.5e-5, 3e-5: distinct) units.  The capacity of the full set is 0 so that no product overflows.
+    CU = 1 << 20
+    for _ in range(40 if tier == 'quick' else 600):
+        m = rng.randint(2, 3)
+        cs = CRIT[:m]
+        base = rng.choice([1, 250]) * CU
+        known = [{'id': ALT[i], 'criteria': {c: base + rng.choice([0, 8, 16, 32]) for c in cs}} for i in range(rng.randint(1, 3))]
+        w = {setkey(s_): (0 if len(s_) == m else rng.choice([0, CU // 2, CU])) for s_ in subsets(cs)}
+        req = {'preferenceFunction': 'choquetIntegral', 'knownAlternatives': known, 'choseToMake': [a['id'] for a in known],
+               'criteria': [crit(j, 'gain') for j in range(m)], 'methodParameters': {'weights': w}, 'biases': []}
+        groups.append([base_case(req, unit=CU, eps=10, noC04=True)])
     # utilities exactly one or two rounding steps (1e-8) apart: distinct values, to be ordered by value, never tied.
     # unit 1e8 makes the steps visible to the specification (single criterion of weight 1: the utility is the value)
     FU = 100000000
@@ -768,7 +784,7 @@ def nt_pipeline(o):
 
 
 PROPS = {
-    'C02': {'families': ['repeat'], 'nontrivial': lambda o: o.get('status') == 200,
+    'C02': {'level_text': "Service!Deterministic (history variable answers: request -> set of answers) validated by Trace_Repeat on recorded histories: every request of a pool (all methods x random bias sequences, seeded orders, near-ties inside the methods' tolerances, rejected requests) executed repeatedly in one process and in several fresh processes in shuffled order; byte equality by digest", 'level_note': 'map-order dependence is only found probabilistically (R repetitions x P processes); MC_Service shows the design has no history dependence', 'families': ['repeat'], 'nontrivial': lambda o: o.get('status') == 200,
             'rule': 'events = executions of a pool of requests (all methods x random bias sequences, seeded random orders, rejected requests), repeated in-process and in several fresh processes in shuffled order; non-trivial = execution of an accepted request; distinct by request id',
             'nt_key': lambda o: o.get('rid')},
     'C10': {'families': ['conc_model', 'conc_gated', 'conc_free'], 'nontrivial': lambda o: True,
@@ -803,9 +819,9 @@ PROPS = {
             'rule': 'non-trivial = valid parameter set whose real iterator yields >= 2 levels; distinct by parameter set + data set'},
     'C11': {'families': ['majority'], 'nontrivial': nt_majority,
             'rule': 'non-trivial = accepted majority request with >= 3 ranked alternatives and at least one drawn comparison; distinct by request'},
-    'C01': {'families': ['utility', 'majority', 'aspect', 'satisfaction', 'electre', 'pipeline'], 'cap': {'quick': 1200}, 'nontrivial': nt_ties,
+    'C01': {'level_text': 'Ranking!WellFormed is an invariant of the design models (MC_Majority, MC_AspectElim, MC_Satisfaction, MC_Utility, MC_ElectreE) and is evaluated by TLC on the real response of every replayed / random / pipeline case of all seven methods (all tie patterns up to 6-7 alternatives for the majority heuristic, all draw policies, current choice inside/outside choseToMake, bias sequences)', 'level_note': 'bounded exhaustive tie patterns + seeded random instances up to 8 alternatives; only the response shape is judged (contract), no reference model needed', 'families': ['utility', 'majority', 'aspect', 'satisfaction', 'electre', 'pipeline'], 'cap': {'quick': 1200}, 'nontrivial': nt_ties,
             'rule': 'cases = TLC-enumerated instances + seeded random instances; non-trivial = accepted request whose result has >= 2 entries; distinct by request'},
-    'C03': {'families': ['utility', 'pipeline'], 'nontrivial': nt_formula,
+    'C03': {'level_text': 'reference equality with Utility!WS2 / OWA2 / Choquet2 evaluated by TLC on the criteria values finally evaluated and the post-bias parameters recorded by the hook, on exact dyadic grids (all capacity tables over {0,1/4,1/2,1} for 2 criteria, {0,1/2,1} for 3), also after omission / reversal', 'level_note': "exact grids only (float accuracy on arbitrary reals is outside this technique); weightedSum's missing weight is a recorded known finding matched by the named deviation WSUnweighted", 'families': ['utility', 'pipeline'], 'nontrivial': nt_formula,
             'rule': 'non-trivial = accepted utility request with >= 2 criteria (weights/capacities matter); distinct by request'},
     'C04': {'families': ['utility'], 'nontrivial': nt_ties,
             'rule': 'non-trivial = accepted utility request with >= 2 ranked alternatives; distinct by request'},
